@@ -121,3 +121,32 @@ impl<T: Clone + PartialEq> Probe<T> {
         }
     }
 }
+
+#[cfg(feature = "verif-hooks")]
+impl<T: Clone> Clone for Probe<T> {
+    fn clone(&self) -> Self {
+        Self {
+            direct: self.direct.clone(),
+            indirect: self.indirect.clone(),
+            probe_number: self.probe_number,
+            direct_ack_ok: self.direct_ack_ok,
+            indirect_ack_count: self.indirect_ack_count,
+            reached_indirect_probe_stage: self.reached_indirect_probe_stage,
+        }
+    }
+}
+
+#[cfg(feature = "verif-hooks")]
+impl<T: Clone> Probe<T> {
+    #[allow(clippy::type_complexity)]
+    pub(crate) fn verif_fields(&self) -> (Option<Member<T>>, Vec<T>, ProbeNumber, bool, usize, bool) {
+        (
+            self.direct.clone(),
+            self.indirect.clone(),
+            self.probe_number,
+            self.direct_ack_ok,
+            self.indirect_ack_count,
+            self.reached_indirect_probe_stage,
+        )
+    }
+}
